@@ -1,7 +1,7 @@
 (* C04/Proofs.v — entry point of the proofs (split over ProofsSplit, ProofsSeg, ProofsQueue,
-   ProofsLink, ProofsCrash, ProofsDrain) and the statements Props.v closes by [exact]. *)
+   ProofsLink, ProofsCrash, ProofsDrain, ProofsConsumer) and the statements Props.v closes by [exact]. *)
 From Verif Require Export Lib.Bytes C04.Model C04.Spec C04.ProofsSplit C04.ProofsSeg C04.ProofsQueue
-     C04.ProofsLink C04.ProofsCrash C04.ProofsDrain.
+     C04.ProofsLink C04.ProofsCrash C04.ProofsDrain C04.Drain C04.ProofsConsumer.
 From VerifGen Require Import Consts.
 From Coq Require Import ZifyBool ZifyNat ZifyN.
 Open Scope Z_scope.
